@@ -38,6 +38,7 @@ type contCase struct {
 	CliToks2  []string // second invocation of the same application object
 	Argv2     []string
 	Env       EnvState
+	PreReject bool      // history: the same application object first rejects a command line that mentions the container
 	EnvAfter  *EnvState // when set: the environment installed between the declarations and Run (must not matter)
 	States    []string
 	Shape     string
@@ -51,7 +52,15 @@ func (c *contCase) Describe() interface{} {
 	if c.EnvAfter != nil {
 		m["env_installed_after_the_declarations"] = c.EnvAfter.Describe()
 	}
+	if c.PreReject {
+		m["first_a_rejected_invocation_of_the_same_object"] = c.preRejectArgv()
+	}
 	return m
+}
+
+// preRejectArgv: an undeclared option followed by the second invocation's command line (which gives the container a value).
+func (c *contCase) preRejectArgv() []string {
+	return rejectedVariant(c.Argv2)
 }
 
 var envStateNames = []string{"unset", "empty", "valid", "invalid", "padded"}
@@ -299,6 +308,7 @@ func genContainerOpt(t *Tape, yieldProbe bool) *contCase {
 	}
 	c.CliToks2, c.Argv2 = mkArgv(n2, nil)
 
+	c.PreReject = t.Draw(4) == 0
 	// environment timeline: sometimes the host program changes the variables after declaring
 	if t.Draw(3) == 0 {
 		after := c.Env
@@ -345,6 +355,9 @@ type contRun struct {
 	action   map[string]VarSnap
 	final    map[string]VarSnap
 
+	preErr    error
+	preEvents int
+
 	p2        *Proc
 	accepted2 bool
 	action2   map[string]VarSnap
@@ -370,6 +383,13 @@ func contPrepare(c *contCase, id int, verdict func(c *contCase, r *contRun, st *
 		if c.EnvAfter != nil {
 			c.EnvAfter.Apply()
 		}
+		if c.PreReject {
+			// a spec mismatch: nothing is bound, nothing may be remembered
+			r.preErr = r.inst.Cli.Run(c.preRejectArgv())
+			r.preEvents = len(p.Events)
+			p.Events = nil
+			r.inst.ActionSnap = nil
+		}
 		return r.inst.Cli.Run(c.Argv)
 	}
 	finish := func(st *Stats) *Violation {
@@ -378,6 +398,9 @@ func contPrepare(c *contCase, id int, verdict func(c *contCase, r *contRun, st *
 			r.final = r.inst.Snapshot()
 		}
 		r.accepted = p.End == EndReturned && p.Err == nil && len(p.Observed()) == 1 && p.Observed()[0] == "ACT:r"
+		if c.PreReject && (r.preErr == nil || r.preEvents != 0 || r.preErr.Error() != specMismatchText()) {
+			r.accepted = false // the first invocation was not the plain spec mismatch it was meant to be
+		}
 		if r.accepted && r.inst != nil {
 			// history: the same application object parses a second command line
 			p2 := NewProc(10 + id)
@@ -420,6 +443,9 @@ func contStats(c *contCase, st *Stats, r *contRun) {
 	}
 	if c.EnvAfter != nil {
 		st.Count("fired.env_changed_after_declaration")
+	}
+	if c.PreReject && r.preErr != nil && r.preEvents == 0 {
+		st.Count("reach.rejected_invocation_before_the_observed_one")
 	}
 	if len(c.States) > 0 || len(c.CliToks) > 0 {
 		st.Nontrivial(fnv64(fmt.Sprintf("%d %v %v %q %v %d %s", c.Decl.Kind, c.Decl.IsArg, c.Decl.Def != "" || len(c.Decl.DefList) > 0, c.States, c.Env.Describe(), len(c.CliToks), c.Shape)))
